@@ -3,6 +3,11 @@ package main
 // C04 — WKT text round trip, typed entry points, re-spellings; and the WKT share of C05
 // (runWKTHostile / genWKTHostile: hostile input never panics, never over-allocates).
 //
+// ops: rt (marshal, parse with all eight functions), respell, parse (hostile stream, outcomes only),
+// hostile (the same with allocation measured; C05 calls it as op wkt), seq (several encoder calls —
+// wkt.Marshal and wkt.MarshalString, the package's only encoder entry points — in a row or from two
+// goroutines, every result kept and judged only when all calls are done: runWKTSeq).
+//
 // fmt's %g and strconv.ParseFloat are parameters of the Lean model.  Every case line therefore
 // carries Go's own answers (computed here, on the input side of the line, so that a replay
 // recomputes nothing of them):
@@ -20,6 +25,7 @@ import (
 	"runtime"
 	"strconv"
 	"strings"
+	"sync"
 	"time"
 
 	"github.com/paulmach/orb"
@@ -249,8 +255,149 @@ func runC04(op string, in []string) string {
 		return strings.Join(wktEight(wktUnhex(in[0])), " ; ")
 	case "hostile":
 		return runWKTHostile(in)
+	case "seq":
+		return runWKTSeq(in)
 	}
 	return "badop"
+}
+
+// --- op seq: several encoder calls in a row, every result kept, all of them judged afterwards ---
+//
+// "A returned text must stay what it was": a caller may hold the []byte / string it got from
+// wkt.Marshal / wkt.MarshalString for as long as it likes, may call the encoders again meanwhile
+// (from this or another goroutine) and may write into the []byte it was given (including its spare
+// capacity) without any other result, earlier or later, changing.
+//
+// input  = <mode s|p> <n> (<entry 0=Marshal 1=MarshalString> <value>)*n | F… T…
+// output = for every item: <text at call (copied)> ; <kept result when all calls are done, "=" if
+// unchanged> ; <wkt.Unmarshal of the KEPT result> ; <text of a fresh call of the same entry point
+// after every kept []byte has been overwritten up to its capacity, "=" if equal>
+// mode p: the items with even index are encoded by one goroutine, those with odd index by another,
+// both started together.
+func runWKTSeq(in []string) string {
+	r := &tokReader{t: in}
+	mode := r.next()
+	n := r.int()
+	type item struct {
+		entry  int
+		g      orb.Geometry
+		b      []byte
+		s      string
+		atCall string
+	}
+	items := make([]item, n)
+	for i := range items {
+		items[i].entry = r.int()
+		items[i].g = r.geom()
+	}
+	call := func(it *item) {
+		if it.entry == 0 {
+			it.b = wkt.Marshal(it.g)
+			it.atCall = string(it.b) // a copy
+		} else {
+			it.s = wkt.MarshalString(it.g)
+			it.atCall = string([]byte(it.s)) // a copy that shares nothing with the result
+		}
+	}
+	panicked := false
+	if mode == "p" {
+		var wg sync.WaitGroup
+		var mu sync.Mutex
+		start := make(chan struct{})
+		for k := 0; k < 2; k++ {
+			wg.Add(1)
+			go func(k int) {
+				defer wg.Done()
+				defer func() {
+					if recover() != nil {
+						mu.Lock()
+						panicked = true
+						mu.Unlock()
+					}
+				}()
+				<-start
+				for i := k; i < n; i += 2 {
+					call(&items[i])
+					runtime.Gosched()
+				}
+			}(k)
+		}
+		close(start)
+		wg.Wait()
+	} else {
+		func() {
+			defer func() {
+				if recover() != nil {
+					panicked = true
+				}
+			}()
+			for i := range items {
+				call(&items[i])
+			}
+		}()
+	}
+	if panicked {
+		return "panic"
+	}
+	kept := func(it *item) string {
+		if it.entry == 0 {
+			return string(it.b)
+		}
+		return it.s
+	}
+	same := func(a, ref string) string {
+		if a == ref {
+			return "="
+		}
+		return wktHex(a)
+	}
+	ends := make([]string, n)
+	outs := make([]string, n)
+	for i := range items {
+		ends[i] = kept(&items[i])
+		e := ends[i]
+		outs[i] = guard(func() string { g, err := wkt.Unmarshal(e); return wktOutcome(g, err) })
+	}
+	// the caller owns what it was given: overwrite every kept []byte up to its capacity …
+	for i := range items {
+		if b := items[i].b; b != nil {
+			b = b[:cap(b)]
+			for j := range b {
+				b[j] = '#'
+			}
+		}
+	}
+	// … and the encoders must not notice
+	var sb strings.Builder
+	for i := range items {
+		it := items[i]
+		fresh := guard(func() string {
+			if it.entry == 0 {
+				return "t" + string(wkt.Marshal(it.g))
+			}
+			return "t" + wkt.MarshalString(it.g)
+		})
+		if fresh == "panic" {
+			return "panic"
+		}
+		if i > 0 {
+			sb.WriteString(" ; ")
+		}
+		sb.WriteString(wktHex(it.atCall) + " ; " + same(ends[i], it.atCall) + " ; " + outs[i] + " ; " + same(fresh[1:], it.atCall))
+	}
+	return sb.String()
+}
+
+// wktSeqInput: the case line of op seq for the given values and entry points.
+func wktSeqInput(mode string, entries []int, gs_ []orb.Geometry) string {
+	var sb strings.Builder
+	sb.WriteString(mode + " " + strconv.Itoa(len(gs_)))
+	texts := make([]string, len(gs_))
+	for i, g := range gs_ {
+		sb.WriteString(" " + strconv.Itoa(entries[i]) + " " + gs(g))
+		texts[i], _ = wktMarshalGuarded(g)
+	}
+	return sb.String() + " | " + wktFTable(orb.Collection(gs_)) + " " + wktPFTable(texts...)
 }
 
 func wktMarshalGuarded(g orb.Geometry) (text string, ok bool) {
@@ -403,11 +550,170 @@ func wktMutate(r *rand.Rand, s string, other string) string {
 	}
 }
 
+// --- long texts: many members / many points per member (the allocation clause must see growth) ---
+
+func wktRep(s string, n int, sep string) string {
+	if n <= 0 {
+		return ""
+	}
+	return s + strings.Repeat(sep+s, n-1)
+}
+
+// wktLongPts: k points "x y" joined by commas, coordinates from a small alphabet (keeps the
+// ParseFloat table of the line short).
+func wktLongPts(r *rand.Rand, k int) string {
+	var sb strings.Builder
+	for i := 0; i < k; i++ {
+		if i > 0 {
+			sb.WriteByte(',')
+		}
+		if r == nil {
+			sb.WriteString("1 2")
+		} else {
+			sb.WriteString([]string{"0", "1", "2", "-3", "4.5", "1e5", "7", "10"}[r.Intn(8)] + " " + []string{"0", "1", "2", "-3", "4.5", "1e5", "7", "10"}[r.Intn(8)])
+		}
+	}
+	return sb.String()
+}
+
+// wktLongShape: a valid text of the given kind with `members` members of `per` parts of `pts` points
+// (what "member" and "part" mean depends on the kind; unused levels are ignored).
+func wktLongShape(r *rand.Rand, kind, members, per, pts int) string {
+	p := func() string { return wktLongPts(r, pts) }
+	list := func(n int, f func() string) string {
+		var sb strings.Builder
+		for i := 0; i < n; i++ {
+			if i > 0 {
+				sb.WriteByte(',')
+			}
+			sb.WriteString(f())
+		}
+		return sb.String()
+	}
+	switch kind {
+	case 0:
+		return "MULTIPOINT(" + list(members, func() string { return "(" + wktLongPts(r, 1) + ")" }) + ")"
+	case 1:
+		return "LINESTRING(" + wktLongPts(r, members*pts) + ")"
+	case 2:
+		return "MULTILINESTRING(" + list(members, func() string { return "(" + p() + ")" }) + ")"
+	case 3:
+		return "POLYGON(" + list(members, func() string { return "(" + p() + ")" }) + ")"
+	case 4:
+		return "MULTIPOLYGON(" + list(members, func() string { return "(" + list(per, func() string { return "(" + p() + ")" }) + ")" }) + ")"
+	case 5: // a collection of many small members of every kind
+		return "GEOMETRYCOLLECTION(" + list(members, func() string {
+			k := 6
+			if r != nil {
+				k = r.Intn(8)
+			}
+			switch k {
+			case 0:
+				return "POINT(" + wktLongPts(r, 1) + ")"
+			case 1:
+				return "LINESTRING(" + p() + ")"
+			case 2:
+				return "MULTILINESTRING(" + list(per, func() string { return "(" + p() + ")" }) + ")"
+			case 3:
+				return "POLYGON(" + list(per, func() string { return "(" + p() + ")" }) + ")"
+			case 4:
+				return "MULTIPOLYGON(" + list(per, func() string { return "((" + p() + "))" }) + ")"
+			case 5:
+				return "MULTIPOINT(" + list(per, func() string { return "(" + wktLongPts(r, 1) + ")" }) + ")"
+			case 6:
+				return "MULTILINESTRING((" + p() + "),(" + p() + "))"
+			default:
+				return []string{"POLYGON EMPTY", "GEOMETRYCOLLECTION EMPTY", "GEOMETRYCOLLECTION(POINT(1 2))", "LINESTRING EMPTY"}[r.Intn(4)]
+			}
+		}) + ")"
+	default: // one long multi-geometry inside nested collections, with siblings
+		in := wktLongShape(r, []int{0, 2, 3, 4}[members%4], members, per, pts)
+		return "GEOMETRYCOLLECTION(POINT(1 2),GEOMETRYCOLLECTION(" + in + ",POINT(3 4)),LINESTRING(1 2,3 4))"
+	}
+}
+
+// wktLongFamily: the fixed long texts — for every multi kind and for collections, R = 300 and 1000
+// members (thorough: 4000 too).  A per-member cost proportional to the whole text is about R/8 times
+// the linear allowance of 128 bytes per input byte: already 3x the whole budget at R = 300.  Then
+// hundreds of points per member and balanced shapes in between.  (The Lean model, which has to parse
+// every text too, is quadratic in the member count: 0.3 s at 1000 members, 2 s at 4000.)
+func wktLongFamily(thorough bool, emit func(s string)) {
+	sizes := []int{300, 1000}
+	if thorough {
+		sizes = []int{300, 1000, 4000}
+	}
+	for _, n := range sizes {
+		emit(wktLongShape(nil, 0, n, 1, 1))
+		emit(wktLongShape(nil, 2, n, 1, 1))
+		emit(wktLongShape(nil, 2, n, 1, 2))
+		emit(wktLongShape(nil, 3, n, 1, 1))
+		emit(wktLongShape(nil, 3, n, 1, 4))
+		emit(wktLongShape(nil, 4, n, 1, 1))
+		emit(wktLongShape(nil, 4, 1, n, 1))
+		emit(wktLongShape(nil, 5, n, 2, 2))
+		emit(wktLongShape(nil, 6, n+1, 1, 1)) // a long MULTILINESTRING two collections deep
+		emit(wktLongShape(nil, 6, n+3, 1, 1)) // … a long MULTIPOLYGON
+		emit("GEOMETRYCOLLECTION(" + wktRep("POINT(1 2)", n, ",") + ")")
+		emit("GEOMETRYCOLLECTION(" + wktRep("LINESTRING(1 2,3 4)", n, ",") + ")")
+		emit("GEOMETRYCOLLECTION(" + wktRep("MULTILINESTRING((1 2,3 4),(1 2))", n/2, ",") + ")")
+		emit("GEOMETRYCOLLECTION(" + wktRep("MULTIPOLYGON(((1 2,3 4)),((1 2)))", n/2, ",") + ")")
+		emit("GEOMETRYCOLLECTION(" + wktRep("GEOMETRYCOLLECTION(POINT(1 2),POINT(3 4))", n/2, ",") + ")")
+		emit("GEOMETRYCOLLECTION(GEOMETRYCOLLECTION(" + wktRep("POINT(1 2)", n, ",") + "))")
+	}
+	for _, sh := range [][3]int{{60, 1, 60}, {20, 20, 10}, {8, 1, 800}, {3, 3, 700}, {400, 3, 3}} {
+		emit(wktLongShape(nil, 2, sh[0], sh[1], sh[2]))
+		emit(wktLongShape(nil, 3, sh[0], sh[1], sh[2]))
+		emit(wktLongShape(nil, 4, sh[0], sh[1], sh[2]))
+	}
+	// hostile variants: the same sizes with a broken tail / broken member (the parser must not have
+	// paid for the whole before it notices)
+	emit(wktLongShape(nil, 2, 1000, 1, 2) + "x")
+	emit("MULTILINESTRING(" + wktRep("(1 2)", 1000, ",") + ",(1 x))")
+	emit("MULTIPOLYGON(" + wktRep("((1 2))", 1000, ",") + ",((1)))")
+	emit("POLYGON(" + wktRep("(1 2)", 1000, " , ") + ")")
+	emit("MULTILINESTRING(" + wktRep("(1 2)", 1000, "\t,\n") + ")")
+}
+
+// wktLongRandom: a random long text (<= 16 kB): kind, member count (200..3000), parts and
+// points per member drawn so that the product stays bounded; one in three then mutated.
+func wktLongRandom(r *rand.Rand) string {
+	kind := r.Intn(7)
+	var members, per, pts int
+	switch r.Intn(3) {
+	case 0: // many members, short each
+		members, per, pts = 200+r.Intn(2800), 1+r.Intn(2), 1+r.Intn(2)
+	case 1: // few members, long each
+		members, per, pts = 1+r.Intn(8), 1+r.Intn(3), 200+r.Intn(800)
+	default: // balanced
+		members, per, pts = 20+r.Intn(80), 1+r.Intn(4), 5+r.Intn(20)
+	}
+	for members*per*pts > 6000 {
+		if members > 8 {
+			members = members * 2 / 3
+		} else {
+			pts = pts * 2 / 3
+		}
+	}
+	s := wktLongShape(r, kind, members, per, pts)
+	for len(s) > 16000 { // the model is quadratic in the member count
+		members = members*2/3 + 1
+		pts = pts*4/5 + 1
+		s = wktLongShape(r, kind, members, per, pts)
+	}
+	if r.Intn(3) == 0 {
+		s = wktMutate(r, s, "POINT(1 2)")
+	}
+	return s
+}
+
 // genWKTHostile emits hostile inputs (hex text + ParseFloat table):
 //   - exhaustively every sentence of <= 3 (quick) / <= 5 (thorough) tokens over the 16-token alphabet,
 //     sharded by c.Mine;
 //   - a fixed family (quirk witnesses, long inputs on the collection path);
-//   - c.Budget structure-aware mutations of valid texts from the C04 generator.
+//   - the long family (wktLongFamily: thousands of members / of points per member for every multi
+//     kind and for collections; sharded by c.Mine) and three deep two-member nests;
+//   - c.Budget structure-aware mutations of valid texts from the C04 generator, one in 250 of them
+//     a random long text instead (wktLongRandom).
 func genWKTHostile(c *Ctx, emit func(input string)) {
 	r := c.Rng
 	maxTok := 3
@@ -459,7 +765,29 @@ func genWKTHostile(c *Ctx, emit func(input string)) {
 			emit(wktHostileInput(s))
 		}
 	}
+	// long texts of every multi kind and of collections, spread over the shards
+	{
+		li := 0
+		wktLongFamily(c.Tier == "thorough", func(s string) {
+			if wktSpread(c, li) {
+				emit(wktHostileInput(s))
+			}
+			li++
+		})
+		// collections nested 257 / 300 / 513 deep around a two-member innermost collection (a comma
+		// 256+ parentheses deep is not a member separator of any enclosing collection)
+		for _, d := range []int{257, 300, 513} {
+			if wktSpread(c, li) {
+				emit(wktHostileInput(strings.Repeat("GEOMETRYCOLLECTION(", d) + "POINT(1 2),POINT(3 4)" + strings.Repeat(")", d)))
+			}
+			li++
+		}
+	}
 	for k := 0; k < c.Budget && !c.Exhausted(); k++ {
+		if k%250 == 37 {
+			emit(wktHostileInput(wktLongRandom(r)))
+			continue
+		}
 		g := wktGenGeom(r, r.Intn(3), 0)
 		o := wktGenGeom(r, r.Intn(3), 0)
 		s, _ := wktMarshalGuarded(g)
@@ -641,6 +969,104 @@ func wktNest(g orb.Geometry, k int) orb.Geometry {
 	return g
 }
 
+// wktNestSib wraps g in k collections.  mode 0: g is the only member at every level; mode 1: every
+// 64th level and the outermost one get a point before and a line string after the nested member;
+// mode 2: every level gets a point AFTER the nested member (a comma right after a deep member at
+// every parenthesis depth).
+func wktNestSib(g orb.Geometry, k, mode int) orb.Geometry {
+	for l := 1; l <= k; l++ {
+		switch {
+		case mode == 1 && (l%64 == 0 || l == k):
+			g = orb.Collection{orb.Point{float64(l), 0}, g, orb.LineString{{0, float64(l)}, {1, 1}}}
+		case mode == 2:
+			g = orb.Collection{g, orb.Point{1, 0}}
+		default:
+			g = orb.Collection{g}
+		}
+	}
+	return g
+}
+
+// wktDeepDepths: nesting depths around the places where a narrow parenthesis counter wraps (int8 /
+// uint8: 128, 256, 512) and well beyond.
+var wktDeepDepths = []int{127, 128, 129, 255, 256, 257, 258, 300, 511, 512, 513, 700, 1000}
+
+// wktDeepFamily: for every depth of wktDeepDepths, collections nested that deep around an innermost
+// collection of SEVERAL members (a comma at parenthesis depth = nesting depth): variant 0 bare,
+// variant 1 (quick: depths <= 513) a mixed innermost collection and members before/after the nested
+// one at some levels, variant 2 (quick: depths <= 300) a member after the nested one at EVERY level.
+// The Lean model's parser costs about 10 x depth x length list steps per parse (5 s at depth 1000).
+func wktDeepFamily(thorough bool, emit func(g orb.Geometry, depth, variant int)) {
+	two := orb.Collection{orb.Point{1, 2}, orb.Point{3, 4}}
+	mixed := orb.Collection{
+		orb.MultiPolygon{{{{0, 0}, {1, 0}, {0, 0}}}, {{{5, 5}, {6, 6}}, {{7, 7}, {8, 8}}}},
+		orb.LineString{{1, 2}, {3, 4}, {5, 6}},
+		orb.Collection{},
+		orb.Point{1e21, 2e-7},
+	}
+	for _, d := range wktDeepDepths {
+		emit(wktNestSib(two, d, 0), d, 0)
+		if thorough || d <= 513 {
+			emit(wktNestSib(mixed, d, 1), d, 1)
+		}
+		if thorough || d <= 300 {
+			emit(wktNestSib(orb.MultiPoint{{1, 2}, {3, 4}}, d, 2), d, 2)
+		}
+	}
+}
+
+// wktSpread: like c.Mine for the expensive fixed families, but keeps them off shard 0 (which carries
+// the rest of the fixed family) when there are other shards.
+func wktSpread(c *Ctx, i int) bool {
+	if c.Shards <= 1 {
+		return true
+	}
+	return c.Shard == 1+i%(c.Shards-1)
+}
+
+// wktSeqDraw: the values and entry points of one random `seq` case: 2..7 calls, mostly the []byte
+// entry point first, sizes mixed (a later text shorter / longer than an earlier one, equal values
+// twice, empty texts).
+func wktSeqDraw(r *rand.Rand) (string, []int, []orb.Geometry) {
+	n := 2 + r.Intn(6)
+	gs_ := make([]orb.Geometry, n)
+	entries := make([]int, n)
+	style := r.Intn(3)
+	for i := range gs_ {
+		switch x := r.Intn(12); {
+		case x == 0:
+			gs_[i] = wktTopNil(r)
+		case x == 1 && i > 0:
+			gs_[i] = gs_[r.Intn(i)] // the same value again
+		case x == 2:
+			gs_[i] = orb.Point{wktCoord(r, style), wktCoord(r, style)}
+		case x == 3: // a longer text (beyond any small initial buffer)
+			ps := make(orb.LineString, 20+r.Intn(60))
+			for j := range ps {
+				ps[j] = orb.Point{wktCoord(r, style), wktCoord(r, style)}
+			}
+			gs_[i] = ps
+		default:
+			for try := 0; ; try++ {
+				gs_[i] = wktGenGeom(r, style, 0)
+				if s, _ := wktMarshalGuarded(gs_[i]); !strings.Contains(s, "()") || try >= 8 {
+					break
+				}
+			}
+		}
+		if r.Intn(4) != 0 {
+			entries[i] = 0
+		} else {
+			entries[i] = 1
+		}
+	}
+	mode := "s"
+	if r.Intn(4) == 0 {
+		mode = "p"
+	}
+	return mode, entries, gs_
+}
+
 func wktTopNil(r *rand.Rand) orb.Geometry {
 	switch r.Intn(8) {
 	case 0:
@@ -730,8 +1156,74 @@ func genC04(c *Ctx) {
 			}
 		}
 	}
+	// deep nests around a multi-member innermost collection (spread over the shards: the Lean model's
+	// splitter costs about depth x length list steps per parse)
+	{
+		idx := 0
+		wktDeepFamily(c.Tier == "thorough", func(g orb.Geometry, depth, variant int) {
+			if wktSpread(c, idx) {
+				rt(g)
+				if depth <= 300 && variant != 2 {
+					c.Case("respell", wktRespellInput(r, g, variant == 1))
+				}
+			}
+			idx++
+		})
+	}
+	// several encoder calls in a row, every result kept and judged afterwards (op seq): fixed family
+	if c.Shard == 0 {
+		all := append([]orb.Geometry{}, orb.AllGeometries...)
+		zeros := func(n int) []int { return make([]int, n) }
+		ones := func(n int) []int {
+			e := make([]int, n)
+			for i := range e {
+				e[i] = 1
+			}
+			return e
+		}
+		alt := func(n, first int) []int {
+			e := make([]int, n)
+			for i := range e {
+				e[i] = (first + i) % 2
+			}
+			return e
+		}
+		long := make(orb.LineString, 200)
+		for i := range long {
+			long[i] = orb.Point{float64(i), float64(-i) / 4}
+		}
+		for _, mode := range []string{"s", "p"} {
+			c.Case("seq", wktSeqInput(mode, zeros(len(all)), all))
+			c.Case("seq", wktSeqInput(mode, ones(len(all)), all))
+			c.Case("seq", wktSeqInput(mode, alt(len(all), 0), all))
+			c.Case("seq", wktSeqInput(mode, alt(len(all), 1), all))
+			for _, pair := range [][2]orb.Geometry{
+				{orb.Point{1, 2}, orb.Point{3, 4}},
+				{orb.Point{1, 2}, orb.LineString{{3, 4}, {5, 6}}},
+				{orb.LineString{{3, 4}, {5, 6}}, orb.Point{1, 2}},
+				{orb.Point{1, 2}, orb.Point{1, 2}},
+				{long, orb.Point{1, 2}},
+				{orb.Point{1, 2}, long},
+				{long, long},
+				{orb.Collection{orb.Point{1, 2}, orb.Collection{orb.LineString{{3, 4}, {5, 6}}}}, orb.MultiPolygon{{{{0, 0}, {1, 0}, {0, 0}}}}},
+				{orb.Point{1, 2}, orb.MultiPoint{}},
+				{orb.MultiPoint{}, orb.LineString{}},
+				{orb.Point{1, 2}, nil},
+				{orb.Bound{Min: orb.Point{1, 2}, Max: orb.Point{3, 4}}, orb.Ring{{0, 0}, {1, 0}, {0, 0}}},
+			} {
+				for _, e := range [][]int{{0, 0}, {0, 1}, {1, 0}, {1, 1}} {
+					c.Case("seq", wktSeqInput(mode, e, pair[:]))
+				}
+			}
+			c.Case("seq", wktSeqInput(mode, []int{0, 0, 0, 0, 1, 0}, []orb.Geometry{long, orb.Point{1, 2}, long, orb.Point{3, 4}, orb.Point{5, 6}, orb.Polygon{}}))
+		}
+	}
 	n := c.Budget
 	for k := 0; k < n && !c.Exhausted(); k++ {
+		if k%4 == 0 {
+			mode, entries, gs_ := wktSeqDraw(r)
+			c.Case("seq", wktSeqInput(mode, entries, gs_))
+		}
 		style := r.Intn(3)
 		var g orb.Geometry
 		switch x := r.Intn(40); {
